@@ -591,6 +591,12 @@ impl<'a> GExec<'a> {
     }
 
     pub fn panic_guard(&mut self, ctx: &mut Ctx, res: &CallResult, what: &str) -> bool {
+        if let Some(m) = &res.auth_demand_mismatch {
+            // AuthVar::Everyone: the authorisation a principal was asked for must be the call as made
+            if !ctx.check(false, &["C07", "C06", "C13", "C02", "C09"], "auth/demanded-authorisation-does-not-bind-the-call", || m.clone()) {
+                return false;
+            }
+        }
         if let Outcome::Err(e) = &res.out {
             if e.panic && res.abort != AbortStatus::Completed {
                 ctx.harness(format!("{}: panic escaped the host under an unlimited budget: {}", what, e.text));
@@ -951,6 +957,9 @@ impl<'a> GExec<'a> {
             AuthVar::Nobody => None,
             AuthVar::RightOtherArgs | AuthVar::RootOnly => caller_p,
         };
+        if auth == AuthVar::Everyone && caller_p.is_some() {
+            self.sim.permissive_next = true;
+        }
         if let Some(w) = who {
             let mut a = args.clone();
             if matches!(auth, AuthVar::RightOtherArgs | AuthVar::RootOnly) {
